@@ -1271,6 +1271,240 @@ prog_httpuri(const char *unused)
 	TRY(K_CONN, 4, httpuri_round());
 }
 
+// ---- raw sockets and polyamorous PAIR1: their per-pipe state allocates (pipe_init can fail)
+static int
+raw_recv_expect(nng_socket s, const char *q, nng_msg **mp)
+{
+	for (int n = 0; n < 6; n++) {
+		nng_msg *m;
+		int      rv;
+		if ((rv = nng_recvmsg(s, &m, 0)) != 0) {
+			return rv;
+		}
+		if (nng_msg_len(m) == strlen(q) + 1 && strcmp(nng_msg_body(m), q) == 0) {
+			*mp = m;
+			return 0;
+		}
+		nng_msg_free(m); // of an earlier, abandoned attempt
+	}
+	return NNG_ETIMEDOUT;
+}
+static int
+send_str_hdr(nng_socket s, const char *str, uint32_t hdr)
+{
+	nng_msg *m;
+	int      rv;
+	if ((rv = nng_msg_alloc(&m, 0)) != 0) {
+		return rv;
+	}
+	if ((rv = nng_msg_append(m, str, strlen(str) + 1)) != 0 || (rv = nng_msg_header_append_u32(m, hdr)) != 0 ||
+	    (rv = nng_sendmsg(s, m, 0)) != 0) {
+		nng_msg_free(m);
+	}
+	return rv;
+}
+static int raw_n;
+// cooked asker (REQ / SURVEYOR) against a raw answerer that echoes the message, header and all
+static int
+raw_echo_once(nng_socket ask, nng_socket rawans, const char *q0)
+{
+	char     q[64];
+	nng_msg *m;
+	int      rv;
+	snprintf(q, sizeof(q), "%s#%d", q0, ++raw_n);
+	if ((rv = send_str(ask, q)) != 0 || (rv = raw_recv_expect(rawans, q, &m)) != 0) {
+		return rv;
+	}
+	if ((rv = nng_sendmsg(rawans, m, 0)) != 0) {
+		nng_msg_free(m);
+		return rv;
+	}
+	if ((rv = raw_recv_expect(ask, q, &m)) != 0) {
+		return rv;
+	}
+	nng_msg_free(m);
+	return 0;
+}
+// raw asker (the request / survey id in the header is ours) against a cooked answerer
+static int
+raw_ask_once(nng_socket rawask, nng_socket ans, const char *q0)
+{
+	char     q[64];
+	nng_msg *m;
+	int      rv;
+	snprintf(q, sizeof(q), "%s#%d", q0, ++raw_n);
+	if ((rv = send_str_hdr(rawask, q, 0x80000000u | (uint32_t) raw_n)) != 0 || (rv = raw_recv_expect(ans, q, &m)) != 0) {
+		return rv;
+	}
+	nng_msg_free(m);
+	if ((rv = send_str(ans, q)) != 0 || (rv = raw_recv_expect(rawask, q, &m)) != 0) {
+		return rv;
+	}
+	nng_msg_free(m);
+	return 0;
+}
+// arg = "<xrep|xresp|xsurv|xreq|poly>:<tran>"
+static void
+prog_raw(const char *arg)
+{
+	nng_socket   a = NNG_SOCKET_INITIALIZER, b = NNG_SOCKET_INITIALIZER;
+	nng_listener l;
+	nng_dialer   d;
+	bool         oa = false, ob = false;
+	const char  *tran = strchr(arg, ':') + 1;
+	int          kind = strncmp(arg, "xrep", 4) == 0 ? 0 : strncmp(arg, "xresp", 5) == 0 ? 1 : strncmp(arg, "xsurv", 5) == 0 ? 2
+	             : strncmp(arg, "xreq", 4) == 0                                                                          ? 3
+	                                                                                                                     : 4;
+	opener       oa_fn[] = { nng_rep0_open_raw, nng_respondent0_open_raw, nng_surveyor0_open_raw, nng_rep0_open, nng_pair1_open_poly };
+	opener       ob_fn[] = { nng_req0_open, nng_surveyor0_open, nng_respondent0_open, nng_req0_open_raw, nng_pair1_open_poly };
+	raw_n = 0;
+	// a (the side whose per-pipe state is of interest) listens: its pipes are made in the accept path
+	if (!(oa = API(oa_fn[kind](&a))) || !(ob = API(ob_fn[kind](&b)))) {
+		goto done;
+	}
+	if (!set_timeouts(a, 250) || !set_timeouts(b, 250)) {
+		goto done;
+	}
+	if (kind == 0 && !API(nng_socket_set_ms(b, NNG_OPT_REQ_RESENDTIME, NNG_DURATION_INFINITE))) {
+		goto done;
+	}
+	if (kind == 1 && !API(nng_socket_set_ms(b, NNG_OPT_SURVEYOR_SURVEYTIME, 250))) {
+		goto done;
+	}
+	if (!API(do_listen(a, tran, &l)) || !TRY(K_CONN, 8, nng_dial(b, g_url, &d, 0))) {
+		goto done;
+	}
+	switch (kind) {
+	case 0:
+	case 1:
+		if (!TRY(K_XCHG, 12, raw_echo_once(b, a, "ask")) || !TRY(K_XCHG, 12, raw_echo_once(b, a, "more"))) {
+			goto done;
+		}
+		break;
+	case 2:
+		if (!TRY(K_XCHG, 12, raw_ask_once(a, b, "poll")) || !TRY(K_XCHG, 12, raw_ask_once(a, b, "more"))) {
+			goto done;
+		}
+		break;
+	case 3:
+		if (!TRY(K_XCHG, 12, raw_ask_once(b, a, "ask")) || !TRY(K_XCHG, 12, raw_ask_once(b, a, "more"))) {
+			goto done;
+		}
+		break;
+	default:
+		if (!TRY(K_XCHG, 12, xchg_fresh(b, a, "ping")) || !TRY(K_XCHG, 12, xchg_fresh(a, b, "pong"))) {
+			goto done;
+		}
+		break;
+	}
+done:
+	if (ob) {
+		API(nng_socket_close(b));
+	}
+	if (oa) {
+		API(nng_socket_close(a));
+	}
+}
+
+// ---- HTTP server error pages: set, replace, set another, then a request that is answered with one
+static const char *page404 = "<html><body>C20: no such thing</body></html>";
+static int
+httperr_round(void)
+{
+	nng_url         *url = NULL;
+	nng_aio         *aio = NULL;
+	nng_http_server *srv = NULL;
+	nng_http_client *cli = NULL;
+	nng_http        *conn = NULL;
+	int              rv, port, first = 0;
+	bool             started = false;
+	void            *data;
+	size_t           len;
+
+	if ((rv = nng_url_parse(&url, "http://127.0.0.1:0/")) != 0 || (rv = nng_aio_alloc(&aio, NULL, NULL)) != 0 ||
+	    (rv = nng_http_server_hold(&srv, url)) != 0) {
+		goto out;
+	}
+	nng_aio_set_timeout(aio, 400);
+	// every call: success or NNG_ENOMEM, and the server stays usable (the calls that follow
+	// take the same locks; a lock left held shows as a hang or a panic)
+	for (int i = 0; i < 5; i++) {
+		int r = nng_http_server_set_error_page(srv, i == 3 ? NNG_HTTP_STATUS_INTERNAL_SERVER_ERROR : NNG_HTTP_STATUS_NOT_FOUND,
+		    i == 1 ? "<html>first</html>" : page404);
+		if (r != 0 && r != NNG_ENOMEM) {
+			rv = r;
+			goto out;
+		}
+		if (r != 0 && first == 0) {
+			first = r;
+		}
+	}
+	if ((rv = nng_http_server_start(srv)) != 0) {
+		goto out;
+	}
+	started = true;
+	if ((rv = nng_http_server_get_port(srv, &port)) != 0) {
+		goto out;
+	}
+	nng_url_resolve_port(url, (uint32_t) port);
+	if ((rv = nng_http_client_alloc(&cli, url)) != 0) {
+		goto out;
+	}
+	nng_http_client_connect(cli, aio);
+	nng_aio_wait(aio);
+	if ((rv = nng_aio_result(aio)) != 0) {
+		goto out;
+	}
+	conn = nng_aio_get_output(aio, 0);
+	if ((rv = nng_http_set_uri(conn, "/no/such/thing", NULL)) != 0) {
+		goto out;
+	}
+	nng_http_transact(conn, aio);
+	nng_aio_wait(aio);
+	if ((rv = nng_aio_result(aio)) != 0) {
+		goto out;
+	}
+	nng_http_get_body(conn, &data, &len);
+	if (nng_http_get_status(conn) >= 500) {
+		rv = NNG_ENOMEM; // the server could not build its answer
+	} else if (nng_http_get_status(conn) != NNG_HTTP_STATUS_NOT_FOUND) {
+		rv = -1000;
+	} else if (first == 0 && (len != strlen(page404) || memcmp(data, page404, len) != 0)) {
+		// all pages were set, so the custom one must be served -- unless the server could
+		// not copy it into this response (best effort: the status line is still right)
+		rv = atomic_load(&g_hit) ? NNG_ENOMEM : -1000;
+	}
+	if (rv == 0) {
+		rv = first;
+	}
+out:
+	if (conn != NULL) {
+		nng_http_close(conn);
+	}
+	if (cli != NULL) {
+		nng_http_client_free(cli);
+	}
+	if (started) {
+		nng_http_server_stop(srv);
+	}
+	if (srv != NULL) {
+		nng_http_server_release(srv);
+	}
+	if (aio != NULL) {
+		nng_aio_free(aio);
+	}
+	if (url != NULL) {
+		nng_url_free(url);
+	}
+	return rv;
+}
+static void
+prog_httperr(const char *unused)
+{
+	(void) unused;
+	TRY(K_CONN, 4, httperr_round());
+}
+
 // only nng_init / nng_fini (the allocations of library start-up)
 static void
 prog_init(const char *unused)
@@ -1283,10 +1517,10 @@ typedef struct {
 	void (*fn)(const char *);
 	const char *arg;
 } program;
-static program programs[128];
+static program programs[256];
 static int     nprograms;
-static char    names[128][40];
-static const pattern *pat_of[128];
+static char    names[256][40];
+static const pattern *pat_of[256];
 
 static void
 run_pattern_entry(const char *arg)
@@ -1296,7 +1530,7 @@ run_pattern_entry(const char *arg)
 	const char *tran = strchr(arg, ':') + 1;
 	prog_pattern(pat_of[idx], tran);
 }
-static char pargs[128][24];
+static char pargs[256][24];
 static void
 add(const char *name, void (*fn)(const char *), const char *arg)
 {
@@ -1316,6 +1550,31 @@ build_table(void)
 	add("opts", prog_opts, "");
 	add("http", prog_http, "");
 	add("httpuri", prog_httpuri, "");
+	add("httperr", prog_httperr, "");
+	{
+		// nng_init/nng_fini with every combination of 1..3 task / expire / poller / resolver threads
+		static char inames[81][24], iargs[81][8];
+		int         n = 0;
+		for (int t = 1; t <= 3; t++)
+			for (int e = 1; e <= 3; e++)
+				for (int pl = 1; pl <= 3; pl++)
+					for (int r = 1; r <= 3; r++, n++) {
+						snprintf(inames[n], sizeof(inames[n]), "init:t%de%dp%dr%d", t, e, pl, r);
+						snprintf(iargs[n], sizeof(iargs[n]), "%d%d%d%d", t, e, pl, r);
+						add(inames[n], prog_init, iargs[n]);
+					}
+	}
+	{
+		static const char *rk[]  = { "xrep", "xresp", "xsurv", "xreq", "poly" };
+		static const char *rt[]  = { "inproc", "tcp", "ipc" };
+		static char        rnames[15][24];
+		int                n = 0;
+		for (int i = 0; i < 5; i++)
+			for (int j = 0; j < 3; j++, n++) {
+				snprintf(rnames[n], sizeof(rnames[n]), "%s:%s", rk[i], rt[j]);
+				add(rnames[n], prog_raw, rnames[n]);
+			}
+	}
 	add("bigpair70k:ws", prog_big, "pair0:70000:ws");
 	add("bigpair200k:ws", prog_big, "pair0:200000:ws");
 	add("bigreqrep70k:ws", prog_big, "reqrep:70000:ws");
@@ -1356,6 +1615,13 @@ run_one(const program *pg, long k)
 	prm.num_poller_threads   = 1;
 	prm.max_poller_threads   = 1;
 	prm.num_resolver_threads = 1;
+	if (pg->fn == prog_init && strlen(pg->arg) == 4) {
+		// "init:t<T>e<E>p<P>r<R>": the thread counts of this variant
+		prm.num_task_threads = prm.max_task_threads = (int16_t) (pg->arg[0] - '0');
+		prm.num_expire_threads = prm.max_expire_threads = (int16_t) (pg->arg[1] - '0');
+		prm.num_poller_threads = prm.max_poller_threads = (int16_t) (pg->arg[2] - '0');
+		prm.num_resolver_threads                        = (int16_t) (pg->arg[3] - '0');
+	}
 	prm.malloc_fn            = acct_malloc;
 	prm.calloc_fn            = acct_calloc;
 	prm.free_fn              = acct_free;
